@@ -145,19 +145,23 @@ def run(ctx):
         ctx.add_tlc("MC_Ungroup(modes,counts) %dx%d" % (rows, cols), res)
     # ---- C2S: grid x option space ----------------------------------------------------------------
     streams = list(gc.grid_streams(3, 2, gc.KINDS5)) if quick else list(gc.grid_streams(4, 2, gc.KINDS5))
-    per = 10 if quick else 30
+    per = 10 if quick else 8
     if not quick:
         rng0 = random.Random(ctx.seed)
         # the 2x4 grid completely, each stream with a rotating slice; plus the 2x3 grid with the whole option space
         small = list(gc.grid_streams(3, 2, gc.KINDS5))
         jobs = [(i, s, per, ctx.seed) for i, s in enumerate(streams)]
-        jobs += [(len(streams) + i, s, len(GRID_OPTIONS), ctx.seed) for i, s in enumerate(small)]
+        jobs += [(len(streams) + i, s, 90, ctx.seed) for i, s in enumerate(small)]      # a third of the option space per stream, rotating
     else:
         jobs = [(i, s, per, ctx.seed) for i, s in enumerate(streams)]
-    recs = core.pmap(grid_job, jobs, chunk=200)
-    verdict = gc.validate(ctx, recs)
-    report(ctx, recs, verdict, "grid")
-    ctx.notes["c2s_grid_streams"] = len(recs)
+    # in batches: the thorough grid is millions of calls; records are validated and dropped batch by batch
+    nrec = 0
+    for lo in range(0, len(jobs), 40000):
+        recs = core.pmap(grid_job, jobs[lo:lo + 40000], chunk=200)
+        verdict = gc.validate(ctx, recs)
+        report(ctx, recs, verdict, "grid")
+        nrec += len(recs)
+    ctx.notes["c2s_grid_streams"] = nrec
     # ---- C2S: random + corpus ------------------------------------------------------------------------
     rng = random.Random(ctx.seed * 3 + 1)
     recs = []
